@@ -121,9 +121,16 @@ def _layout(rnd, spec, mapped, prefix, pool, want_gdef, own=None):
     scripts.sort(key=lambda s: (s != "DFLT", s))
     lines = ["languagesystem %s dflt;" % s for s in scripts]
     langs = {}
-    if "latn" in scripts and rnd.random() < 0.3:
-        lines.append("languagesystem latn TRK;")
-        langs["latn"] = ["TRK "]
+    lang_rules = []      # (script, LANG, "" | " exclude_dflt")
+    for sc, lgs in (("latn", ["TRK", "ROM"]), ("cyrl", ["SRB"]), ("grek", ["PGR"])):
+        if sc in scripts and sc != own:
+            for lg in lgs:
+                if rnd.random() < 0.4:
+                    lines.append("languagesystem %s %s;" % (sc, lg))
+                    langs.setdefault(sc, []).append(lg.ljust(4))
+                    if rnd.random() < 0.8:
+                        lang_rules.append((sc, lg, rnd.choice(["", " exclude_dflt"])))
+    ext = lambda: " useExtension" if rnd.random() < 0.4 else ""
     tags = []
     if rnd.random() < 0.35:
         # left-over lookups no feature refers to, placed before the live ones
@@ -150,7 +157,14 @@ def _layout(rnd, spec, mapped, prefix, pool, want_gdef, own=None):
         tags.append("ss01")
     if rnd.random() < 0.6:
         alt = new(c + ".ctx")
-        lines.append("feature calt { sub %s' %s by %s; } calt;" % (c, b, alt))
+        if rnd.random() < 0.5:
+            lines.append("feature calt { sub %s' %s by %s; } calt;" % (c, b, alt))
+        else:
+            # explicit nested lookups, two records at one position, contextual lookup possibly stored as Extension
+            alt2 = new(c + ".ctx2")
+            lines.append("lookup NS1%s { sub %s by %s; } NS1;" % (ext(), c, alt))
+            lines.append("lookup NS2%s { sub %s by %s; } NS2;" % (ext(), alt, alt2))
+            lines.append("feature calt { lookup CT%s { sub %s' lookup NS1 lookup NS2 %s; } CT; } calt;" % (ext(), c, b))
         tags.append("calt")
     if rnd.random() < 0.4:
         lines.append("feature ccmp { sub %s by %s %s; } ccmp;" % (d, a, c))
@@ -159,8 +173,26 @@ def _layout(rnd, spec, mapped, prefix, pool, want_gdef, own=None):
         pairs = ["pos %s %s %d;" % (rnd.choice(bases), rnd.choice(bases), rnd.choice([-1, 1]) * rnd.randrange(10, 120)) for _ in range(rnd.randint(1, 5))]
         if rnd.random() < 0.5:
             pairs.append("pos [%s %s] [%s %s] %d;" % (a, b, c, d, -rnd.randrange(5, 60)))
-        lines.append("feature kern { %s } kern;" % " ".join(dict.fromkeys(pairs)))
+        body = "lookup KP%s { %s } KP;" % (ext(), " ".join(dict.fromkeys(pairs)))
+        if rnd.random() < 0.6 and len(bases) > 2:
+            lines.append("lookup PS1%s { pos %s <0 0 %d 0>; } PS1;" % (ext(), bases[1], rnd.randrange(20, 140)))
+            lines.append("lookup PS2 { pos %s <%d 0 0 0>; } PS2;" % (bases[1], rnd.randrange(5, 40)))
+            body += " lookup KC%s { pos %s %s' lookup PS1 lookup PS2 %s; } KC;" % (ext(), bases[0], bases[1], bases[2])
+        for sc, lg, how in lang_rules:
+            if rnd.random() < 0.5:
+                body += " script %s; language %s%s; pos %s %s %d;" % (sc, lg, how, rnd.choice(bases), rnd.choice(bases), -rnd.randrange(20, 160))
+        lines.append("feature kern { %s } kern;" % body)
         tags.append("kern")
+    if lang_rules:
+        body, cur = "", None
+        for sc, lg, how in sorted(lang_rules):
+            g = rnd.choice(bases)
+            if cur != sc:
+                body += " script %s;" % sc
+                cur = sc
+            body += " language %s%s; sub %s by %s;" % (lg, how, g, new("%s.%s" % (g, lg)))
+        lines.append("feature locl {%s } locl;" % body)
+        tags.append("locl")
     if rnd.random() < 0.3:
         lines.append("feature cpsp { pos %s <%d 0 %d 0>; } cpsp;" % (a, rnd.randrange(1, 30), rnd.randrange(2, 60)))
         tags.append("cpsp")
@@ -170,6 +202,16 @@ def _layout(rnd, spec, mapped, prefix, pool, want_gdef, own=None):
         lines.append("feature mark { pos base %s <anchor %d %d> mark @TOP; pos base %s <anchor %d %d> mark @TOP; } mark;"
                      % (a, rnd.randrange(100, 300), rnd.randrange(600, 800), b, rnd.randrange(100, 300), rnd.randrange(600, 800)))
         tags.append("mark")
+        if rnd.random() < 0.75:
+            # GSUB and GPOS lookups with a mark filtering set (marks of the set are NOT skipped)
+            p_, q_ = bases[-1], bases[-2]
+            lines.append("feature rlig { lookup RL%s { lookupflag UseMarkFilteringSet [%s]; sub %s %s by %s; } RL; } rlig;"
+                         % (ext(), m, p_, q_, new("%s_%s.r" % (p_, q_))))
+            tags.append("rlig")
+            if rnd.random() < 0.7:
+                lines.append("feature dist { lookup DS%s { lookupflag UseMarkFilteringSet [%s]; pos %s %s %d; } DS; } dist;"
+                             % (ext(), m, q_, p_, -rnd.randrange(15, 90)))
+                tags.append("dist")
     if want_gdef:
         ligs = [g["name"] for g in glyphs if "_" in g["name"]]
         others = [g["name"] for g in glyphs if g["name"] not in marks and g["name"] not in ligs and g["name"] != ".notdef"]
